@@ -10,8 +10,9 @@ def run(c, a):
     thorough = c.tier == "thorough"
     c.rule = ("glyph = (TrueType corpus font with glyf/loca/hmtx, glyph id): all glyphs of small fonts, a seeded sample otherwise; the raw glyph record is decoded by Glyf.tla "
               "(flags with repeats, short/same coordinate deltas, implied mid-points) and compared with GlyphData (per contour, up to rotation of the start point), GlyphExtents, HorizontalAdvance (numberOfHMetrics tail rule) and Upem; "
-              "non-trivial = simple glyph with >= 1 contour; distinct = distinct (font, glyph)")
-    c.assumptions = ["PARTIAL: only TrueType simple glyphs at default coordinates; CFF/CFF2 charstrings, composite glyphs, variation instances and cmap decoding are not covered (no reference decoder is available offline; DESIGN §6)",
+              "composite glyphs whose components are simple glyphs placed by x/y offsets without scaling are decoded too (Components, translation, USE_MY_METRICS shift) and compared contour by contour; "
+              "non-trivial = judged glyph with >= 1 contour; distinct = distinct (font, glyph)")
+    c.assumptions = ["PARTIAL: TrueType simple glyphs and translation-only composites of simple glyphs at default coordinates; CFF/CFF2 charstrings, scaled / point-anchored / nested composites, variation instances and cmap decoding are not covered (no reference decoder is available offline; DESIGN §6)",
                      "raw table bytes are read through opentype.Loader.RawTable (C19/C09 cover it) and sliced with loca by the harness",
                      "the x bearing may be xMin or the hmtx left side bearing (rasterizer convention followed by the reference shaper)"]
     prefix = os.path.join(c.scratch, "gl")
@@ -24,10 +25,14 @@ def run(c, a):
         c.evaluations += st["n"]
         c.traces += st["n"]
         c.nontrivial += st["nontriv"]
+        c.extra["composites_judged"] = c.extra.get("composites_judged", 0) + st["composites"]
         if rj["fails"]:
             lines = open(tp).read().split("\n")
             for f in rj["fails"]:
                 ev = json.loads(lines[f["line"] - 1])
+                if f["pred"] == "HarnessParts":
+                    from .common import Undecided
+                    raise Undecided("harness fetched other component records than the specification decodes: %s gid %s" % (ev["font"], ev["gid"]))
                 c.fail("pred=%s font=%s" % (f["pred"], ev["font"]), "gid=%d ext=%s adv=%s nhm=%s advgid=%s advlast=%s glyf=%s" % (ev["gid"], ev["ext"], ev["adv"], ev["nhm"], ev["advgid"], ev["advlast"], ev["glyf"][:40]),
                        {"engine": "glyf", "font": ev["font"], "gid": ev["gid"]})
     c.exhaustive = False
